@@ -231,7 +231,7 @@ func (w *world) sendReq(id string) {
 	switch {
 	case strings.HasPrefix(id, "badjson"):
 		// not a JSON text: cut short, or a complete query object followed by more
-		payload = []string{`{"query":`, `{"query":"id=` + id + `"}]`, `{"query":"id=` + id + `"} {"query":"id=other"}`, `{"query":"id=` + id + `"}x`}[len(id)%4]
+		payload = []string{`{"query":`, `{"query":"id=` + id + `"}]`, `{"query":"id=` + id + `"} {"query":"id=other"}`, `{"query":"id=` + id + `"}x`}[int(id[len(id)-1])%4]
 	case strings.HasPrefix(id, "badnoq"):
 		payload = `{}`
 	}
